@@ -692,6 +692,32 @@ func (g *pathGen) emitRandom(cw *caseWriter) {
 		} else {
 			cw.parseCase("wrapped", append(append([]byte{}, src...), x...))
 		}
+	case c < 44 && g.r.Intn(3) == 0: // very long tokens (error messages beyond 4 KiB, long literals)
+		n := []int{300, 5000, 9000}[g.r.Intn(3)]
+		switch g.r.Intn(6) {
+		case 0:
+			cw.parseCase("long", []byte("$.a == "+strings.Repeat("9", n)))
+		case 1:
+			cw.parseCase("long", []byte("$.a == 1."+strings.Repeat("1", n)))
+		case 2:
+			cw.parseCase("long", []byte("$ ? (@ like_regex \""+strings.Repeat("(", n)+"\")"))
+		case 3:
+			cw.parseCase("long", []byte("$.\""+strings.Repeat("k", n)+"\""))
+		case 4:
+			cw.parseCase("long", []byte("$."+strings.Repeat("k", n)+" == \""+strings.Repeat("é", n)+"\""))
+		default:
+			cw.parseCase("long", []byte("$.a == 0x"+strings.Repeat("f", n)))
+		}
+	case c < 45 && g.r.Intn(3) == 0: // the same ill-formed pattern with and without the q flag, in both orders; look-alike texts
+		pat := badRegexPatterns[g.r.Intn(len(badRegexPatterns))]
+		q := "$ ? (@ like_regex " + strconv.Quote(pat) + " flag \"q\")"
+		plain := "$ ? (@ like_regex " + strconv.Quote(pat) + ")"
+		alike := "$ ? (@ like_regex " + strconv.Quote(pat+" flag \"q\"") + ")"
+		alike2 := "$ ? (@ like_regex " + strconv.Quote(pat+"q") + ")"
+		seqs := [][]string{{q, plain, q}, {plain, q, plain}, {q, alike, alike2}, {alike, q, plain}}[g.r.Intn(4)]
+		for _, t := range seqs {
+			cw.parseCase("sequence", []byte(t))
+		}
 	case c < 45: // deep nesting: parentheses, unary signs, subscripts, filters
 		n := []int{20, 50, 50, 120, 300, 300, 800, 2000, 50, 120, 20, 10050}[g.r.Intn(12)]
 		kind := g.r.Intn(5)
